@@ -23,6 +23,10 @@ is not a clamp):
 or "no min_periods parameter at all" (ts_fdiff).  Exactly one `let min_periods`, at most one `let window`, both at the top
 level of the body, no other binding of / assignment to either name; the clamp, if present, must precede the min_periods
 line.  Anything else: exit 2.
+
+Aggregation, rolling-closure and map families (C11 / C12, C04 (C01), C13; conformance in coq/Proofs/SrcTablesAgg.v): the DECISION
+tables — comparison operators, constants, the side EPS is on, interpolation arms, sign arms and their iterator pipelines — see
+the block comment above `AGG_CORE` below and notes/translator.md.
 """
 import os, re, sys
 ROOT = os.path.dirname(os.path.dirname(os.path.abspath(__file__)))
@@ -116,6 +120,707 @@ def parse_rolling(repo):
     if not table: raise Unrecognised("no `fn ts_*` found")
     return table, origin
 
+# ======================================================================================================================
+# Aggregation, rolling-closure and map families (C11 / C12, C04 / C01, C13; conformance in coq/Proofs/SrcTablesAgg.v).
+#
+# What is read (function texts through tools/anchors.py: comments stripped, whitespace collapsed, string literals blanked):
+#   tea-core/src/prelude.rs     `pub const EPS: f64 = <literal>;`
+#   tea-core/src/agg.rs         vsum vmean vmean_var vskew vcov vcorr_pearson: EVERY `if <cond>` of the body (not `if let`), in
+#                               source order; the rebinding `let min_periods = min_periods.max_with(K);`; the wrappers vvar / vstd
+#   tea-agg/src/lib.rs          n_sum_filter vmean_filter vkurt: every `if`; vpercentile_of: the counting closure and the
+#                               `match method` kind table
+#   tea-agg/src/vec_valid.rs    vquantile: the count guards, the branch test on q, the interpolation-method tables
+#   tea-rolling/src/*.rs, tevec/src/rolling.rs   every `fn ts_*`: the guards that mention min_periods, the guards that mention
+#                               EPS (every occurrence of either name must lie inside a recognised guard), the aggregation the
+#                               residual statistics of reg.rs end with (`.vmean()`, `.vstd(2)`, `.vskew(3)`)
+#   tea-map/src/{lib,valid_iter,vec_map}.rs      shift vshift vdiff vpct_change: early guard, fill value, the sign arms of
+#                               `match n` and the iterator pipeline of each arm (repeat_n / take / skip / chain / zip / map)
+#
+# A guard is a conjunction (`&&` or `&`) of atoms  `a <op> b`, `x.not_none()`, `x.is_none()`, `x.is_some()`.  Local names are
+# NOT copied into the table: each identifier is resolved to a ROLE through its binding, so that renaming a local or moving an
+# independent `let` leaves the table unchanged, while an identifier whose binding has no recognised form makes the translator
+# stop (exit 2).  Roles: TCount (`let mut n = 0`, `let n = self.vapply_n(..)`, `let (n, _) = self.vfold_n(..)`,
+# `.. count_valid()`), TMinPeriods (the parameter, possibly rebound by the recognised `.max_with(K)`), TNat k, TEps, TZero
+# (`0.`), TVar i (a variable last assigned by `x -= y.powi(2)` / `let x = a - b.powi(2)`: the population variance as computed;
+# numbered by first appearance in the guard), TRes (`let mut res = if ..`), TElem i (operand of a nullness test), TOther i.
+# Comparisons are oriented with the variable role on the left (`EPS < var` and `var > EPS` are the same entry).
+# ======================================================================================================================
+
+AGG_CORE = "tea-core/src/agg.rs"
+AGG_EXT = "tea-agg/src/lib.rs"
+AGG_VEC = "tea-agg/src/vec_valid.rs"
+AGG_CORE_FNS = ["vsum", "vmean", "vmean_var", "vskew", "vcov", "vcorr_pearson"]
+AGG_EXT_FNS = ["n_sum_filter", "vmean_filter", "vkurt"]
+MAP_FNS = [("shift", "tea-map/src/lib.rs"), ("vshift", "tea-map/src/valid_iter.rs"),
+           ("vdiff", "tea-map/src/vec_map.rs"), ("vpct_change", "tea-map/src/vec_map.rs")]
+
+def _blank_strings(s):
+    out, i = [], 0
+    while i < len(s):
+        if s[i] == '"':
+            j = i + 1
+            while j < len(s) and s[j] != '"': j += 2 if s[j] == "\\" else 1
+            out.append('"' + " " * (j - i - 1) + '"'); i = j + 1
+        else:
+            out.append(s[i]); i += 1
+    return "".join(out)
+
+_FN_CACHE = {}
+def _functions(repo, rel):
+    if (repo, rel) not in _FN_CACHE:
+        _FN_CACHE[(repo, rel)] = anchors.functions(open(os.path.join(repo, rel), encoding="utf8").read())
+    return _FN_CACHE[(repo, rel)]
+
+def fn_text(repo, rel, name):
+    fns = _functions(repo, rel)
+    if name not in fns: raise Unrecognised("%s: no `fn %s`" % (rel, name))
+    if name + "#1" in fns: raise Unrecognised("%s: `fn %s` is defined more than once" % (rel, name))
+    return _blank_strings(fns[name])
+
+def _match_close(s, i, op="(", cl=")"):
+    """index of the bracket closing the one at s[i]"""
+    d = 0
+    for j in range(i, len(s)):
+        if s[j] == op: d += 1
+        elif s[j] == cl:
+            d -= 1
+            if d == 0: return j
+    raise Unrecognised("unbalanced `%s`" % op)
+
+# ---- conditions ------------------------------------------------------------------------------------------------------
+_TOK = re.compile(r"\s*(?:(?P<flt>\d[\d_]*\.\d*(?:_?f64)?|\d[\d_]*_?f64)|(?P<int>\d[\d_]*(?:_?(?:usize|u32|u64|i32|i64|isize))?)"
+                  r"|(?P<id>[A-Za-z_]\w*(?:::[A-Za-z_]\w*)*)|(?P<op><=|>=|==|!=|&&|\|\||[<>&()!.|]))")
+_CMP = {"<": "CLt", "<=": "CLe", ">": "CGt", ">=": "CGe", "==": "CEq", "!=": "CNe"}
+_FLIP = {"CLt": "CGt", "CLe": "CGe", "CGt": "CLt", "CGe": "CLe", "CEq": "CEq", "CNe": "CNe"}
+
+def parse_cond(text, who):
+    """`text` -> list of atoms ("cmp", term, op, term) | ("not_none" | "is_none" | "is_some", term); term = (kind, value)"""
+    toks, i = [], 0
+    text = text.strip()
+    while i < len(text):
+        m = _TOK.match(text, i)
+        if not m or m.end() == i: raise Unrecognised("%s: cannot read the condition `%s`" % (who, text))
+        toks.append((m.lastgroup, m.group(m.lastgroup))); i = m.end()
+    pos = [0]
+    def peek(): return toks[pos[0]] if pos[0] < len(toks) else (None, None)
+    def nxt(): t = peek(); pos[0] += 1; return t
+    def bad(): raise Unrecognised("%s: condition `%s` is not a conjunction of simple comparisons / nullness tests" % (who, text))
+    def term():
+        k, v = nxt()
+        if k in ("flt", "int", "id"): return (k, v)
+        bad()
+    def atom():
+        if peek() == ("op", "("):
+            nxt(); a = conj()
+            if nxt() != ("op", ")"): bad()
+            return a
+        t = term()
+        if peek() == ("op", "."):
+            nxt(); k, meth = nxt()
+            if k != "id" or meth not in ("not_none", "is_none", "is_some") or t[0] != "id": bad()
+            if nxt() != ("op", "(") or nxt() != ("op", ")"): bad()
+            return [(meth, t)]
+        k, op = nxt()
+        if k != "op" or op not in _CMP: bad()
+        return [("cmp", t, _CMP[op], term())]
+    def conj():
+        a = atom()
+        while peek() in (("op", "&&"), ("op", "&")):
+            nxt(); a = a + atom()
+        return a
+    res = conj()
+    if pos[0] != len(toks): bad()
+    return res
+
+def all_ifs(text, who):
+    """every `if` of `text` that is not `if let`: (position of the keyword, start, end of the condition text, "if" | "arm")"""
+    out = []
+    for m in re.finditer(r"\bif\b", text):
+        if re.match(r"\s+let\b", text[m.end():]): continue
+        i, d = m.end(), 0
+        kind = None
+        while i < len(text):
+            ch = text[i]
+            if ch in "([": d += 1
+            elif ch in ")]": d -= 1
+            elif ch == "{" and d == 0: kind = "if"; break
+            elif text.startswith("=>", i) and d == 0: kind = "arm"; break
+            elif ch == ";" and d == 0: break
+            i += 1
+        if kind is None or d < 0: raise Unrecognised("%s: `if` at offset %d has no recognisable extent" % (who, m.start()))
+        out.append((m.start(), m.end(), i, kind))
+    return out
+
+# ---- roles -----------------------------------------------------------------------------------------------------------
+def _stmt_end(text, i):
+    """index of the `;` that ends the statement starting at i (bracket depth 0)"""
+    d = 0
+    while i < len(text):
+        ch = text[i]
+        if ch in "([{": d += 1
+        elif ch in ")]}":
+            d -= 1
+            if d < 0: return i
+        elif ch == ";" and d == 0: return i
+        i += 1
+    return i
+
+def _let_binding(name, text, pos):
+    """the last `let` that binds `name` before `pos`: (form, index in a tuple pattern, is_mut, rhs text) or None"""
+    n, best = re.escape(name), None
+    for m in re.finditer(r"\blet\s+(mut\s+)?%s\b\s*(?::[^=;]*)?=(?!=)\s*" % n, text[:pos]):
+        best = max(best or (-1,), (m.start(), "simple", 0, bool(m.group(1)), m.end()))
+    for m in re.finditer(r"\blet\s+\(([^)]*)\)\s*(?::[^=;]*)?=(?!=)\s*", text[:pos]):
+        names = [re.sub(r"^mut\s+", "", x.strip()) for x in m.group(1).split(",")]
+        if name in names:
+            muts = [x.strip().startswith("mut ") for x in m.group(1).split(",")]
+            best = max(best or (-1,), (m.start(), "tuple", names.index(name), muts[names.index(name)], m.end()))
+    if best is None or best[0] < 0: return None
+    _, form, idx, mut, e = best
+    return (form, idx, mut, text[e:_stmt_end(text, e)].strip(), e)
+
+def _last_assignment(name, text, lo, hi):
+    """the last `name <op>= rhs;` in text[lo:hi]: (op, rhs) or None"""
+    last = None
+    for m in re.finditer(r"(?<![\w.])%s\s*([-+*/%%]?)=(?!=)\s*" % re.escape(name), text[lo:hi]):
+        last = (m.group(1), text[lo + m.end():_stmt_end(text, lo + m.end())].strip())
+    return last
+
+_RE_SQ = r"[A-Za-z_]\w*\s*\.\s*powi\(\s*2\s*\)"
+def binding_class(name, text, pos):
+    b = _let_binding(name, text, pos)
+    if b is None: return None
+    form, idx, mut, rhs, e = b
+    if form == "tuple":
+        if idx == 0 and re.match(r"^self\s*\.\s*(vfold_n|n_vsum_filter)\s*\(", rhs): return "count"
+    else:
+        if mut and re.fullmatch(r"0(?:_?usize)?", rhs): return "count"
+        if not mut and re.match(r"^self\s*\.\s*vapply_n\s*\(", rhs): return "count"
+        if not mut and re.fullmatch(r"(?:self|arr)\s*\.\s*titer\(\s*\)\s*\.\s*count_valid\(\s*\)", rhs): return "count"
+        if mut and re.match(r"^if\b", rhs): return "res"
+    la = _last_assignment(name, text, e, pos)
+    if la is None:
+        if form == "simple" and re.fullmatch(r"[A-Za-z_]\w*\s*-\s*" + _RE_SQ, rhs): return "var"
+    elif la[0] == "-" and re.fullmatch(_RE_SQ, la[1]) and mut: return "var"
+    return "other"
+
+def resolve_guard(atoms, text, pos, who, env=None):
+    """atoms of parse_cond -> list of Coq `src_atom` terms; `env`: identifier -> role, for closure parameters"""
+    vars_, elems, others = [], [], []
+    def idx(lst, name):
+        if name not in lst: lst.append(name)
+        return lst.index(name)
+    def role(t, nullness=False):
+        k, v = t
+        if k == "int": return "(TNat %d%%nat)" % int(re.sub(r"[_a-z]\w*$|_", "", v))
+        if k == "flt":
+            try: f = float(re.sub(r"_?f64$", "", v).replace("_", ""))
+            except ValueError: raise Unrecognised("%s: literal `%s`" % (who, v))
+            if f != 0.0: raise Unrecognised("%s: a guard compares with the float literal `%s` (only 0. is recognised)" % (who, v))
+            return "TZero"
+        if env and v in env: return env[v]
+        if v == "EPS":
+            if re.search(r"\blet\s+(mut\s+)?EPS\b", text): raise Unrecognised("%s: EPS is shadowed" % who)
+            return "TEps"
+        if v == "min_periods": return "TMinPeriods"
+        if "::" in v: raise Unrecognised("%s: path `%s` in a guard" % (who, v))
+        c = binding_class(v, text, pos)
+        if c == "count": return "TCount"
+        if c == "res": return "TRes"
+        if c == "var": return "(TVar %d%%nat)" % idx(vars_, v)
+        if nullness: return "(TElem %d%%nat)" % idx(elems, v)
+        return "(TOther %d%%nat)" % idx(others, v)
+    bound = ("TMinPeriods", "TEps", "TZero", "(TNat")
+    out = []
+    for a in atoms:
+        if a[0] == "cmp":
+            l, op, r = role(a[1]), a[2], role(a[3])
+            if l.startswith(bound) and not r.startswith(bound): l, op, r = r, _FLIP[op], l
+            out.append("ACmp %s %s %s" % (l, op, r))
+        else:
+            out.append("%s %s" % (dict(not_none="ANotNone", is_none="AIsNone", is_some="AIsSome")[a[0]],
+                                  role(a[1], nullness=a[0] != "is_some")))
+    return out
+
+def coq_guard(g): return "[" + "; ".join(g) + "]"
+def coq_guards(gs): return "[" + "; ".join(coq_guard(g) for g in gs) + "]"
+
+def fn_guards(text, who, want=None):
+    """resolved guards of every `if` (not `if let`) of the function, with their condition spans"""
+    res = []
+    for kw, a, b, kind in all_ifs(text, who):
+        cond = text[a:b]
+        if want is not None and not want(cond): res.append((a, b, None)); continue
+        res.append((a, b, resolve_guard(parse_cond(cond, who), text, kw, who)))
+    return res
+
+def _occurrences_inside(text, name, spans, who, skip=()):
+    """every occurrence of `name` in the body must lie in one of `spans` (or in one of the `skip` spans)"""
+    for m in re.finditer(r"(?<![\w.])%s\b" % re.escape(name), text):
+        p = m.start()
+        if any(a <= p < b for a, b in skip): continue
+        if not any(a <= p < b for a, b in spans):
+            raise Unrecognised("%s: `%s` is used outside a recognised guard (offset %d: `%s`)" % (who, name, p, text[max(0, p - 30):p + 30]))
+
+def mp_floor(text, body0, who):
+    """usize min_periods parameter: the optional rebinding `let min_periods = min_periods.max_with(K);` -> (K, span) / (0, None)"""
+    sig = text[:body0]
+    if not re.search(r"\bmin_periods\s*:\s*usize\b", sig): raise Unrecognised("%s: no `min_periods: usize` parameter" % who)
+    body = text[body0:]
+    lets = list(re.finditer(r"\blet\s+(?:mut\s+)?\(?[^=;]*\bmin_periods\b[^=;]*=(?!=)", body))
+    if re.search(r"(?<![\w.])min_periods\s*[-+*/%|&^]?=(?!=)", re.sub(r"\blet\s+(mut\s+)?min_periods\b", "let_", body)):
+        raise Unrecognised("%s: min_periods is assigned to" % who)
+    if not lets: return 0, None
+    if len(lets) > 1: raise Unrecognised("%s: min_periods is rebound %d times" % (who, len(lets)))
+    m = re.match(r"let\s+min_periods\s*=\s*min_periods\s*\.\s*(?:max_with|max)\(\s*(\d+)\s*\)\s*;", body[lets[0].start():])
+    if not m: raise Unrecognised("%s: rebinding of min_periods not recognised" % who)
+    if _depth_at(body, lets[0].start()) != 1: raise Unrecognised("%s: `let min_periods` is not at the top level of the body" % who)
+    if re.search(r"\bmin_periods\b", body).start() < lets[0].start(): raise Unrecognised("%s: min_periods is used before it is rebound" % who)
+    return int(m.group(1)), (body0 + lets[0].start(), body0 + lets[0].start() + m.end())
+
+def parse_eps(repo):
+    src = strip_comments(open(os.path.join(repo, "tea-core/src/prelude.rs"), encoding="utf8").read())
+    ms = re.findall(r"\bconst\s+EPS\s*:\s*(\w+)\s*=\s*([^;]+);", src)
+    if len(ms) != 1 or ms[0][0] != "f64": raise Unrecognised("tea-core/src/prelude.rs: `pub const EPS: f64 = ..;` not found exactly once")
+    lit = ms[0][1].strip().replace("_", "")
+    m = re.fullmatch(r"(\d+)(?:\.(\d*))?(?:[eE]([-+]?\d+))?(?:f64)?", lit)
+    if not m: raise Unrecognised("EPS literal `%s` not recognised" % lit)
+    frac = m.group(2) or ""
+    mant, exp = int(m.group(1) + frac), int(m.group(3) or 0) - len(frac)
+    while mant and mant % 10 == 0: mant //= 10; exp += 1
+    return lit, mant, exp, float(lit.replace("f64", "")).hex()
+
+def parse_agg(repo):
+    guards, floors = [], []
+    for rel, names in ((AGG_CORE, AGG_CORE_FNS), (AGG_EXT, AGG_EXT_FNS)):
+        for name in names:
+            who = "%s::%s" % (rel, name)
+            text = fn_text(repo, rel, name)
+            b0 = text.find("{")
+            if b0 < 0: raise Unrecognised("%s: no body" % who)
+            skip = []
+            if re.search(r"\bmin_periods\b", text[:b0]):
+                k, span = mp_floor(text, b0, who)
+                floors.append((name, k))
+                if span: skip.append(span)
+            gs = fn_guards(text, who)
+            spans = [(a, b) for a, b, _ in gs]
+            if re.search(r"\bmin_periods\b", text[:b0]): _occurrences_inside(text[b0:], "min_periods", [(a - b0, b - b0) for a, b in spans], who, [(a - b0, b - b0) for a, b in skip])
+            _occurrences_inside(text[b0:], "EPS", [(a - b0, b - b0) for a, b in spans], who)
+            guards.append((name, [g for _, _, g in gs]))
+    # the wrappers: vvar = vmean_var(min_periods).1, vstd = vvar(min_periods).sqrt()
+    wraps = []
+    for name in ("vvar", "vstd"):
+        text = fn_text(repo, AGG_CORE, name)
+        body = text[text.find("{"):]
+        m = re.fullmatch(r"\{\s*self\s*\.\s*(\w+)\(\s*min_periods\s*\)\s*\.\s*(1|sqrt\(\s*\))\s*\}", body)
+        if not m or not re.search(r"\bmin_periods\s*:\s*usize\b", text[:text.find("{")]): raise Unrecognised("%s::%s: body `%s` not recognised" % (AGG_CORE, name, body))
+        wraps.append((name, "WSnd" if m.group(2) == "1" else "WSqrt", m.group(1)))
+    return guards, floors, wraps
+
+# ---- vquantile / vpercentile_of ----------------------------------------------------------------------------------------
+def parse_quantile(repo):
+    who = AGG_VEC + "::vquantile"
+    text = fn_text(repo, AGG_VEC, "vquantile")
+    def bad(why): raise Unrecognised("%s: %s" % (who, why))
+    m = re.search(r"\blet\s+\(\s*(\w+)\s*,\s*(\w+)\s*,\s*(\w+)\s*,\s*(\w+)\s*,\s*(\w+)\s*\)\s*=\s*if\s+(\w+)\s*(<=|<|>=|>)\s*0\.5\s*\{", text)
+    if not m or len(re.findall(r"\blet\s+\(\s*\w+\s*,\s*\w+\s*,\s*\w+\s*,\s*\w+\s*,\s*\w+\s*\)\s*=", text)) != 1: bad("`let (q, i, j, vi, vj) = if q <= 0.5 {` not found exactly once")
+    q, i, j, vi, vj, q0, qop = m.groups()
+    if q0 != q or not re.search(r"\b%s\s*:\s*f64\b" % q, text[:text.find("{")]): bad("the branch test is not on the parameter q")
+    # the two blocks of the `if q <= 0.5 { A } else { B };`
+    a0 = m.end() - 1; a1 = _match_close(text, a0, "{", "}")
+    me = re.match(r"\s*else\s*\{", text[a1 + 1:])
+    if not me: bad("no else block after the ascending branch")
+    b0 = a1 + 1 + me.end() - 1; b1 = _match_close(text, b0, "{", "}")
+    asc, desc, rest = text[a0:a1 + 1], text[b0:b1 + 1], text[b1 + 1:]
+    # both blocks end in the tuple (q, i, j, vi, <m>.clone().cast()) inside `if i != j { .. } else { return Ok(<m>.clone().cast()); }`
+    tup = r"\(\s*%s\s*,\s*%s\s*,\s*%s\s*,\s*%s\s*,\s*(\w+)\s*\.\s*clone\(\s*\)\s*\.\s*cast\(\s*\)\s*\)\s*\}" % (q, i, j, vi)
+    sel = r"\blet\s+\(\s*(\w+)\s*,\s*(\w+)\s*,\s*\w+\s*\)\s*=\s*\w+\s*\.\s*select_nth_unstable_by\(\s*%s\s*,\s*\|\s*(\w+)\s*,\s*(\w+)\s*\|\s*\3\s*\.\s*(sort_cmp|sort_cmp_rev)\(\s*\4\s*\)\s*\)\s*;" % j
+    info = []
+    for nm, blk in (("ascending", asc), ("descending", desc)):
+        ts, ss = re.findall(tup, blk), list(re.finditer(sel, blk))
+        if len(ts) != 1 or len(ss) != 1: bad("%s branch: tuple / select_nth_unstable_by not found exactly once" % nm)
+        head, mm, cmpf = ss[0].group(1), ss[0].group(2), ss[0].group(5)
+        if ts[0] != mm: bad("%s branch: the fifth component is not the selected element" % nm)
+        mv = re.search(r"\blet\s+%s\s*:\s*f64\s*=\s*%s\s*\.\s*titer\(\s*\)\s*\.\s*(vmax|vmin)\(\s*\)\s*\.\s*map\(\s*\|\s*(\w+)\s*\|\s*\2\s*\.\s*f64\(\s*\)\s*\)\s*\.\s*cast\(\s*\)\s*;" % (vi, head), blk)
+        if not mv: bad("%s branch: `let vi: f64 = head.titer().vmax()/vmin()..` not recognised" % nm)
+        gi = re.findall(r"\bif\s+%s\s*(!=|==)\s*%s\s*\{" % (i, j), blk)
+        if gi != ["!="]: bad("%s branch: `if i != j` not found exactly once" % nm)
+        if len(re.findall(r"\belse\s*\{\s*return\s+Ok\(\s*%s\s*\.\s*clone\(\s*\)\s*\.\s*cast\(\s*\)\s*\)\s*;\s*\}" % mm, blk)) != 1: bad("%s branch: the i == j return is not `Ok(m.clone().cast())`" % nm)
+        info.append((cmpf, mv.group(1), mm))
+    # 1 - q in the descending branch only
+    if not re.search(r"\blet\s+%s\s*=\s*1\.\s*-\s*%s\s*;" % (q, q), desc) or re.search(r"\blet\s+%s\b" % q, asc): bad("`let q = 1. - q;` must open the descending branch only")
+    # early returns of the descending branch: one `match method { .. }` with arms returning
+    def arms_of(blk, what):
+        ms = list(re.finditer(r"\bmatch\s+method\s*\{", blk))
+        if len(ms) != 1: bad("%s: %d `match method` (one expected)" % (what, len(ms)))
+        o = ms[0].end() - 1; c = _match_close(blk, o, "{", "}")
+        return split_arms(blk[o + 1:c], who)
+    def expr_of(e, mm, early):
+        e = e.strip()
+        if early:
+            r = re.fullmatch(r"\{\s*return\s+Ok\(\s*(.*?)\s*\)\s*;\s*\}", e)
+            if not r:
+                if re.fullmatch(r"\{\s*\}", e): return None
+                bad("early arm `%s` not recognised" % e)
+            e = r.group(1)
+        else:
+            r = re.fullmatch(r"Ok\(\s*(.*)\s*\)", e)
+            if r: e = r.group(1).strip()
+            else:
+                r = re.fullmatch(r"\{\s*let\s+\(\s*(\w+)\s*,\s*(\w+)\s*\)\s*=\s*\(\s*%s\s*\.\s*f64\(\s*\)\s*/\s*(\w+)\s*,\s*%s\s*\.\s*f64\(\s*\)\s*/\s*\3\s*\)\s*;\s*let\s+(\w+)\s*=\s*\(\s*%s\s*-\s*\1\s*\)\s*/\s*\(\s*\2\s*-\s*\1\s*\)\s*;\s*Ok\(\s*%s\s*\+\s*\(\s*%s\s*-\s*%s\s*\)\s*\*\s*\4\s*\)\s*\}" % (i, j, q, vi, vj, vi), e)
+                if not r: bad("arm `%s` not recognised" % e)
+                if not re.search(r"\blet\s+%s\s*=\s*\(\s*\w+\s*-\s*1\s*\)\s*\.\s*f64\(\s*\)\s*;" % r.group(3), text): bad("len_1 is not (n - 1).f64()")
+                return "QLinear"
+        if e == vi: return "QVi"
+        if e == vj and not early: return "QVj"
+        if mm and re.fullmatch(r"%s\s*\.\s*clone\(\s*\)\s*\.\s*cast\(\s*\)" % mm, e): return "QVj"     # the selected element IS vj
+        if re.fullmatch(r"\(\s*%s\s*\+\s*%s\s*\)\s*/\s*2\.0?" % (vi, vj), e) or re.fullmatch(r"\(\s*%s\s*\+\s*%s\s*\)\s*/\s*2\.0?" % (vj, vi), e): return "QMid"
+        bad("interpolation expression `%s` not recognised" % e)
+    meth = dict(Linear="Linear", Lower="Lower", Higher="Higher", MidPoint="MidPoint")
+    def table(arms, mm, early, what):
+        out, default = [], None
+        for pat, e in arms:
+            pat = re.sub(r"^QuantileMethod::", "", pat.strip())
+            if pat == "_":
+                if not early or expr_of(e, mm, True) is not None: bad("%s: catch-all arm" % what)
+                default = True; continue
+            if pat not in meth: bad("%s: arm pattern `%s`" % (what, pat))
+            x = expr_of(e, mm, early)
+            if x is None: continue
+            out.append((meth[pat], x))
+        return out
+    if re.search(r"\bmatch\s+method\b", asc): bad("the ascending branch has a `match method`")
+    early = table(arms_of(desc, "descending branch"), info[1][2], True, "descending branch")
+    final = table(arms_of(rest, "final match"), None, False, "final match")
+    if sorted(x for x, _ in final) != sorted(meth.values()): bad("the final match does not have exactly the four method arms")
+    # count guards: `let n = self.titer().count_valid(); if n == 0 { return Ok(f64::NAN); } else if n == 1 { .. }`
+    gs = []
+    for kw, a, b, kind in all_ifs(text, who):
+        cond = text[a:b]
+        if re.search(r"\b(%s|%s|%s)\b" % (i, j, q), cond): continue
+        gs.append(resolve_guard(parse_cond(cond, who), text, kw, who))
+    m0 = re.search(r"\bif\s+(\w+)\s*==\s*0\s*\{\s*return\s+Ok\(\s*f64::NAN\s*\)\s*;\s*\}\s*else\s+if\s+\1\s*==\s*1\s*\{\s*return\s+Ok\(\s*(\w+)\s*\.\s*titer\(\s*\)\s*\.\s*vfirst\(\s*\)\s*\.\s*unwrap\(\s*\)\s*\.\s*cast\(\s*\)\s*\)\s*;\s*\}", text)
+    if not m0: bad("the n == 0 / n == 1 fast paths are not recognised")
+    return dict(qop=_CMP[qop], cmp=[x[0] for x in info], head=[x[1] for x in info], early=early, final=final, guards=gs)
+
+def split_arms(body, who):
+    """`PAT => EXPR, PAT => EXPR, ..` at bracket depth 0 -> [(pat, expr)]"""
+    arms, i, d, start = [], 0, 0, 0
+    parts = []
+    while i < len(body):
+        ch = body[i]
+        if ch in "([{": d += 1
+        elif ch in ")]}": d -= 1
+        elif ch == "," and d == 0: parts.append(body[start:i]); start = i + 1
+        elif ch == "}" and d == 0: pass
+        i += 1
+    parts.append(body[start:])
+    for p in parts:
+        if not p.strip(): continue
+        # a block arm `PAT => { .. }` may be followed by the next arm without a comma
+        while p.strip():
+            k = p.find("=>")
+            if k < 0: raise Unrecognised("%s: match arm `%s` not recognised" % (who, p.strip()))
+            pat, rest = p[:k].strip(), p[k + 2:].lstrip()
+            if rest.startswith("{"):
+                c = _match_close(rest, 0, "{", "}")
+                arms.append((pat, rest[:c + 1])); p = rest[c + 1:]
+            else:
+                arms.append((pat, rest.strip())); p = ""
+    return arms
+
+def parse_percentile(repo):
+    who = AGG_EXT + "::vpercentile_of"
+    text = fn_text(repo, AGG_EXT, "vpercentile_of")
+    def bad(why): raise Unrecognised("%s: %s" % (who, why))
+    m = re.search(r"\blet\s+\(\s*mut\s+(\w+)\s*,\s*mut\s+(\w+)\s*,\s*mut\s+(\w+)\s*\)\s*=\s*\(\s*0\s*,\s*0\s*,\s*0\s*\)\s*;", text)
+    if not m: bad("the three counters are not recognised")
+    lt, eq, tot = m.groups()
+    # null score -> NaN, before anything is counted
+    ms = re.search(r"\blet\s+(\w+)\s*=\s*if\s+(\w+)\s*\.\s*is_none\(\s*\)\s*\{\s*return\s+f64::NAN\s*;\s*\}\s*else\s*\{\s*\2\s*\.\s*unwrap\(\s*\)\s*\}\s*;", text)
+    if not ms: bad("the null-score early return is not recognised")
+    score = ms.group(1)
+    mc = re.search(r"\.\s*for_each\(\s*\|\s*(\w+)\s*\|\s*\{\s*if\s+let\s+Some\(\s*(\w+)\s*\)\s*=\s*\1\s*\.\s*to_opt\(\s*\)\s*\{\s*%s\s*\+=\s*1\s*;\s*if\s+\2\s*(<|<=|>|>=|==|!=)\s*%s\s*\{\s*(\w+)\s*\+=\s*1\s*;\s*\}\s*else\s+if\s+\2\s*(<|<=|>|>=|==|!=)\s*%s\s*\{\s*(\w+)\s*\+=\s*1\s*;\s*\}\s*\}\s*\}\s*\)\s*;" % (tot, score, score), text)
+    if not mc: bad("the counting closure is not recognised")
+    cname = {lt: "CntLess", eq: "CntEqual"}
+    if mc.group(4) not in cname or mc.group(6) not in cname: bad("the counting closure increments an unknown counter")
+    counting = [(_CMP[mc.group(3)], cname[mc.group(4)]), (_CMP[mc.group(5)], cname[mc.group(6)])]
+    if not re.search(r"\bif\s+%s\s*==\s*0\s*\{\s*return\s+f64::NAN\s*;\s*\}" % tot, text): bad("the empty-series return is not recognised")
+    mle = re.search(r"\blet\s+(\w+)\s*=\s*%s\s*\+\s*%s\s*;" % (lt, eq), text)
+    if not mle: bad("less_equal_count is not less_than_count + exact_match_count")
+    le = mle.group(1)
+    ms_ = list(re.finditer(r"\bmatch\s+method\s*\{", text))
+    if len(ms_) != 1: bad("`match method` not found exactly once")
+    o = ms_[0].end() - 1; c = _match_close(text, o, "{", "}")
+    kinds = []
+    f = r"\s*\.\s*f64\(\s*\)\s*"
+    for pat, e in split_arms(text[o + 1:c], who):
+        pat = re.sub(r"^PercentileOfMethod::", "", pat.strip()); e = e.strip()
+        if pat not in ("Rank", "Weak", "Strict"): bad("arm pattern `%s`" % pat)
+        r = re.fullmatch(r"(\w+)%s/\s*%s%s" % (f, tot, f), e)
+        if r:
+            num = {le: "PNLessEqual", lt: "PNLess"}.get(r.group(1))
+            if not num: bad("arm %s: numerator `%s`" % (pat, r.group(1)))
+            kinds.append(("Src" + pat, num, None)); continue
+        r = re.fullmatch(r"\{\s*if\s+%s\s*(<|<=|>|>=|==|!=)\s*(\d+)\s*\{\s*let\s+(\w+)\s*=\s*%s\s*\+\s*1\s*;\s*let\s+(\w+)\s*=\s*\3\s*\+\s*\(\s*%s\s*-\s*1\s*\)\s*;\s*\(\s*\(\s*\3\s*\+\s*\4\s*\)%s\*\s*0\.5\s*\)\s*/\s*%s%s\}\s*else\s*\{\s*\(\s*%s\s*\+\s*%s\s*\)%s/\s*%s%s\}\s*\}" % (eq, lt, eq, f, tot, f, lt, eq, f, tot, f), e)
+        if not r: bad("arm %s: `%s` not recognised" % (pat, e))
+        kinds.append(("Src" + pat, "PNRankAvg", (_CMP[r.group(1)], int(r.group(2)))))
+    if sorted(k for k, _, _ in kinds) != ["SrcRank", "SrcStrict", "SrcWeak"]: bad("the match does not have exactly the three kind arms")
+    return dict(counting=counting, kinds=kinds)
+
+# ---- rolling closures ----------------------------------------------------------------------------------------------------
+def parse_rolling_guards(repo):
+    emit, eps, resid = {}, {}, {}
+    for f in ROLL_FILES:
+        fns = _functions(repo, f)
+        for key in fns:
+            if not key.startswith("ts_") or "#" in key: continue
+            who = "%s::%s" % (f, key)
+            text = _blank_strings(fns[key])
+            b0 = text.find("{")
+            sig, body = text[:b0], text[b0:]
+            has_mp = bool(re.search(r"\bmin_periods\s*:", sig))
+            ifs = all_ifs(body, who)
+            skip = []
+            if has_mp:
+                ml = re.search(r"\blet\s+min_periods\b[^;]*;", body)
+                if not ml: raise Unrecognised("%s: no `let min_periods`" % who)
+                skip.append((ml.start(), ml.end()))
+            spans_mp, spans_eps, g_mp, g_eps = [], [], [], []
+            for kw, a, b, kind in ifs:
+                cond = body[a:b]
+                is_mp, is_eps = bool(re.search(r"(?<![\w.])min_periods\b", cond)), bool(re.search(r"(?<![\w.])EPS\b", cond))
+                if not (is_mp or is_eps): continue
+                g = resolve_guard(parse_cond(cond, who), body, kw, who)
+                if is_mp: spans_mp.append((a, b)); g_mp.append(g)
+                if is_eps: spans_eps.append((a, b)); g_eps.append(g)
+            if has_mp: _occurrences_inside(body, "min_periods", spans_mp, who, skip)
+            elif re.search(r"\bmin_periods\b", body): raise Unrecognised("%s: min_periods is mentioned but is not a parameter" % who)
+            _occurrences_inside(body, "EPS", spans_eps, who)
+            if has_mp: emit[key] = g_mp
+            eps[key] = g_eps
+            if re.match(r"ts_vregx_resid_", key):
+                calls = re.findall(r"\)\s*\.\s*(vmean|vstd|vvar|vskew|vkurt|vsum)\(\s*(\d*)\s*\)\s*\}\s*else\s*\{\s*f64::NAN\s*\}", body)
+                if len(calls) != 1: raise Unrecognised("%s: the aggregation of the residuals is not recognised" % who)
+                resid[key] = (calls[0][0], int(calls[0][1] or 0))
+    return emit, eps, resid
+
+# ---- map family: shift / vshift / vdiff / vpct_change ----------------------------------------------------------------------
+def parse_pipeline(e, who, names):
+    """iterator expression -> Coq `src_pipe` term.  names: dict(len=.., n_abs=.., fill=regex of the fill expression)"""
+    e = e.strip().rstrip(",").strip()      # rustfmt's trailing comma of a multi-line argument
+    def bad(why): raise Unrecognised("%s: pipeline `%s`: %s" % (who, e[:80], why))
+    def cnt(t):
+        t = t.strip()
+        if t == names["len"]: return "CntLen"
+        if t == names["n_abs"]: return "CntNAbs"
+        if re.fullmatch(r"%s\s*-\s*%s" % (names["len"], names["n_abs"]), t): return "CntLenMinusNAbs"
+        bad("count expression `%s`" % t)
+    def args_at(s, i):
+        """s[i] == '(' -> (argument text, index after the closing bracket)"""
+        c = _match_close(s, i)
+        return s[i + 1:c], c + 1
+    def split_top(s):
+        parts, d, st = [], 0, 0
+        for k, ch in enumerate(s):
+            if ch in "([{": d += 1
+            elif ch in ")]}": d -= 1
+            elif ch == "," and d == 0: parts.append(s[st:k]); st = k + 1
+        parts.append(s[st:])
+        return [p for p in (x.strip() for x in parts) if p]
+    # primary
+    m = re.match(r"(?:std::iter::|iter::)?repeat_n\s*\(", e)
+    if m:
+        a, k = args_at(e, m.end() - 1)
+        ps = split_top(a)
+        if len(ps) != 2 or not re.fullmatch(names["fill"], ps[0]): bad("repeat_n arguments `%s`" % a)
+        cur = "(PRepeat %s)" % cnt(ps[1])
+    else:
+        m = re.match(r"self\b", e)
+        if not m: bad("does not start with repeat_n(..) or self")
+        cur, k = "PSelf", m.end()
+    trust = None
+    while k < len(e):
+        m = re.match(r"\s*\.\s*(\w+)\s*\(", e[k:])
+        if not m: bad("trailing text `%s`" % e[k:k + 40])
+        meth = m.group(1)
+        a, k = args_at(e, k + m.end() - 1)
+        if trust is not None: bad("a method after to_trust")
+        if meth == "titer":
+            if a.strip() or cur != "PSelf": bad("titer() not on self")
+        elif meth == "take": cur = "(PTake %s %s)" % (cur, cnt(a))
+        elif meth == "skip": cur = "(PSkip %s %s)" % (cur, cnt(a))
+        elif meth == "chain": cur = "(PChain %s %s)" % (cur, parse_pipeline(a, who, names))
+        elif meth == "zip": cur = "(PZip %s %s)" % (cur, parse_pipeline(a, who, names))
+        elif meth == "map": cur = "(PMap %s %s)" % (parse_closure(a, who, names), cur)
+        elif meth == "to_trust":
+            if cnt(a) != "CntLen": bad("to_trust(%s)" % a)
+            trust = True
+        else: bad("method `%s`" % meth)
+    return cur
+
+_PCT = {}
+def parse_closure(c, who, names):
+    c = c.strip()
+    m = re.fullmatch(r"\|\s*\(\s*(\w+)\s*,\s*(\w+)\s*\)\s*\|\s*(\w+)\s*-\s*(\w+)", c)
+    if m:
+        a, b, x, y = m.groups()
+        if (x, y) == (b, a): return "CloSubBA"
+        if (x, y) == (a, b): return "CloSubAB"
+        raise Unrecognised("%s: closure `%s`" % (who, c))
+    m = re.fullmatch(r"\|\s*(\w+)\s*\|\s*\1\s*\.\s*cast\(\s*\)", c)
+    if m: return "CloCast"
+    m = re.fullmatch(r"\|\s*\(\s*(\w+)\s*,\s*(\w+)\s*\)\s*\|\s*\{\s*if\s+(.*?)\s*\{\s*(.*)\s*\}\s*else\s*\{\s*f64::NAN\s*\}\s*\}", c)
+    if not m: raise Unrecognised("%s: closure `%s` not recognised" % (who, c[:80]))
+    a, b, cond, then = m.groups()
+    env = {a: "(TElem 0%nat)", b: "(TElem 1%nat)"}
+    outer = resolve_guard(parse_cond(cond, who), c, 0, who, env)
+    val = r"%s\s*\.\s*cast\(\s*\)\s*/\s*%s\s*-\s*1\.0?" % (b, a)
+    then = then.strip()
+    if re.fullmatch(val, then):
+        _PCT.setdefault(who, []).append(("CloPctPos", [outer]))
+        return "CloPctPos"
+    m2 = re.fullmatch(r"let\s+%s\s*:\s*f64\s*=\s*%s\s*\.\s*cast\(\s*\)\s*;\s*if\s+(.*?)\s*\{\s*%s\s*\}\s*else\s*\{\s*f64::NAN\s*\}" % (a, a, val), then)
+    if not m2: raise Unrecognised("%s: closure body `%s` not recognised" % (who, then[:80]))
+    inner = resolve_guard(parse_cond(m2.group(1), who), c, 0, who, env)
+    _PCT.setdefault(who, []).append(("CloPctNeg", [outer, inner]))
+    return "CloPctNeg"
+
+def parse_map(repo):
+    out, pct = [], []
+    for name, rel in MAP_FNS:
+        who = "%s::%s" % (rel, name)
+        text = fn_text(repo, rel, name)
+        def bad(why): raise Unrecognised("%s: %s" % (who, why))
+        b0 = text.find("{"); sig, body = text[:b0], text[b0:]
+        mn = re.search(r"\b(\w+)\s*:\s*i32\b", sig)
+        if not mn or len(re.findall(r":\s*i32\b", sig)) != 1: bad("no single `n: i32` parameter")
+        n = mn.group(1)
+        ml = re.search(r"\blet\s+(\w+)\s*=\s*self\s*\.\s*len\(\s*\)\s*;", body)
+        ma = re.search(r"\blet\s+(\w+)\s*=\s*%s\s*\.\s*unsigned_abs\(\s*\)\s*as\s+usize\s*;" % n, body)
+        if not ml or not ma: bad("`let len = self.len(); let n_abs = n.unsigned_abs() as usize;` not recognised")
+        ln, na = ml.group(1), ma.group(1)
+        for nm in (ln, na):
+            if len(re.findall(r"\blet\s+(?:mut\s+)?%s\b" % nm, body)) != 1 or re.search(r"(?<![\w.])%s\s*[-+*/]?=(?!=)" % nm, re.sub(r"\blet\s+%s\b" % nm, "let_", body)): bad("`%s` is rebound" % nm)
+        # the fill value
+        has_value = bool(re.search(r"\bvalue\s*:", sig))
+        mv = re.search(r"\blet\s+value\s*=\s*value\s*\.\s*unwrap_or_else\(\s*\|\s*\|\s*T::none\(\s*\)\s*\)\s*;", body)
+        if has_value:
+            opt = bool(re.search(r"\bvalue\s*:\s*Option<", sig))
+            if opt != bool(mv): bad("the `value` parameter and its defaulting do not fit")
+            fill, fill_re = ("FillValueOrNone" if opt else "FillValue"), r"value"
+        else:
+            if mv or re.search(r"\bvalue\b", body): bad("`value` is used but is not a parameter")
+            fill, fill_re = "FillNan", r"f64::NAN"
+        names = dict(len=ln, n_abs=na, fill=fill_re)
+        # early guard
+        mg = re.search(r"\bif\s+(\w+)\s*(<=|<|>=|>)\s*(\w+)\s*\{\s*return\s+Box::new\(\s*(.*?)\s*\)\s*;\s*\}\s*match\s+%s\s*\{" % n, body)
+        if not mg: bad("the early guard `if len <= n_abs { return Box::new(repeat_n(.., len)); }` followed by `match n` is not recognised")
+        l, op, r = mg.group(1), _CMP[mg.group(2)], mg.group(3)
+        if (l, r) == (na, ln): l, op, r = r, _FLIP[op], l
+        if (l, r) != (ln, na): bad("the early guard does not compare len with n_abs")
+        if mv and mv.start() > mg.start(): bad("the fill value is defaulted after the early guard")
+        early = parse_pipeline(mg.group(4), who, names)
+        if len(all_ifs(body[:mg.end()], who)) != 1: bad("another `if` before `match n`")
+        o = mg.end() - 1; c = _match_close(body, o, "{", "}")
+        if body[c + 1:].strip() != "}": bad("text after the match")
+        arms = []
+        for pat, e in split_arms(body[o + 1:c], who):
+            pat = pat.strip()
+            mp_ = re.fullmatch(r"(\w+)\s+if\s+(.*)", pat)
+            if mp_:
+                atoms = parse_cond(mp_.group(2), who)
+                if len(atoms) != 1 or atoms[0][0] != "cmp": bad("arm guard `%s`" % pat)
+                _, a1, opc, a2 = atoms[0]
+                if a1 != ("id", mp_.group(1)) or a2[0] != "int" or int(a2[1]) != 0:
+                    if a2 == ("id", mp_.group(1)) and a1[0] == "int" and int(a1[1]) == 0: opc = _FLIP[opc]
+                    else: bad("arm guard `%s`" % pat)
+                sign = "(SgnCmp %s)" % opc
+            elif pat == "_": sign = "SgnRest"
+            elif re.fullmatch(r"-?\d+", pat): sign = "(SgnLit (%s))" % pat
+            else: bad("arm pattern `%s`" % pat)
+            e = e.strip().rstrip(",").strip()
+            mb = re.fullmatch(r"Box::new\(\s*(.*?)\s*,?\s*\)", e)
+            if not mb: bad("arm `%s` is not Box::new(..)" % e[:60])
+            inner = mb.group(1).strip()
+            mt = re.fullmatch(r"TrustIter::new\(\s*(.*)\s*,\s*(\w+)\s*,?\s*\)", inner)
+            if mt:
+                if mt.group(2) != ln: bad("TrustIter::new(.., %s)" % mt.group(2))
+                inner = mt.group(1).strip()
+            arms.append((sign, parse_pipeline(inner, who, names)))
+        if not arms or arms[-1][0] != "SgnRest" or any(s == "SgnRest" for s, _ in arms[:-1]): bad("the catch-all arm must come last, once")
+        out.append((name, fill, op, early, arms))
+        for kind, gs in _PCT.pop(who, []): pct.append((name, kind, gs))
+    return out, pct
+
+def render_agg(eps, agg, quant, perc, roll, maps):
+    lit, mant, exp, hexf = eps
+    guards, floors, wraps = agg
+    emit, epsg, resid = roll
+    marms, pct = maps
+    def sl(rows): return "  [" + ";\n   ".join(rows) + "]."
+    o = ["(* ---- aggregation / rolling-closure / map families (conformance: coq/Proofs/SrcTablesAgg.v) ------------------------",
+         "   Guards: conjunctions of atoms over ROLES (identifiers are resolved through their bindings, see tools/gen_tables.py). *)",
+         "Inductive src_cmp := CLt | CLe | CGt | CGe | CEq | CNe.",
+         "Inductive src_term := TCount | TMinPeriods | TNat (k : nat) | TEps | TZero | TVar (i : nat) | TRes | TElem (i : nat) | TOther (i : nat).",
+         "Inductive src_atom := ACmp (l : src_term) (c : src_cmp) (r : src_term) | ANotNone (t : src_term) | AIsNone (t : src_term) | AIsSome (t : src_term).",
+         "Definition src_guard := list src_atom.", "",
+         "(* `pub const EPS: f64 = %s;` of tea-core/src/prelude.rs: the literal, mantissa * 10^exponent, and the binary64 it denotes *)" % lit,
+         'Definition src_eps_literal : string := "%s".' % lit,
+         "Definition src_eps_dec : Z * Z := (%s, %s)." % (coq_z(mant), coq_z(exp)),
+         "Definition src_eps_float : PrimFloat.float := %s%%float." % hexf, "",
+         "(* tea-core/src/agg.rs, tea-agg/src/lib.rs: EVERY `if` of the function (not `if let`), in source order *)",
+         "Definition src_agg_guards : list (string * list src_guard) :=",
+         sl(['("%s", %s)' % (n, coq_guards(gs)) for n, gs in guards]),
+         "(* `let min_periods = min_periods.max_with(K);` (0: min_periods is used as given) *)",
+         "Definition src_agg_mp_floor : list (string * nat) :=", sl(['("%s", %d%%nat)' % (n, k) for n, k in floors]),
+         "(* vvar = self.vmean_var(min_periods).1, vstd = self.vvar(min_periods).sqrt() *)",
+         "Inductive src_wrap := WSnd (callee : string) | WSqrt (callee : string).",
+         "Definition src_agg_wrappers : list (string * src_wrap) :=", sl(['("%s", %s "%s")' % w for w in wraps]), "",
+         "(* tea-agg/src/vec_valid.rs vquantile.  The branch test `q <op> 0.5`; per branch the comparator handed to",
+         "   select_nth_unstable_by and the aggregation of `head` that gives vi; the early returns of the descending branch; the final",
+         "   `match method`.  QVj: `vj`, which is the selected element m in both branches (checked by the translator). *)",
+         "Inductive src_qmethod := SrcLinear | SrcLower | SrcHigher | SrcMidPoint.",
+         "Inductive src_qexpr := QVi | QVj | QMid | QLinear.   (* vi | vj | (vi + vj) / 2. | vi + (vj - vi) * fraction, fraction = (q - i/len_1) / (j/len_1 - i/len_1) *)",
+         "Inductive src_sortcmp := SrcSortCmp | SrcSortCmpRev.",
+         "Inductive src_headagg := HeadVmax | HeadVmin.",
+         "Definition src_quantile_branch_test : src_cmp := %s." % quant["qop"],
+         "Definition src_quantile_branches : list (src_sortcmp * src_headagg) :=",
+         sl(["(%s, %s)" % (dict(sort_cmp="SrcSortCmp", sort_cmp_rev="SrcSortCmpRev")[c], dict(vmax="HeadVmax", vmin="HeadVmin")[h]) for c, h in zip(quant["cmp"], quant["head"])]),
+         "Definition src_quantile_desc_early : list (src_qmethod * src_qexpr) :=", sl(["(Src%s, %s)" % a for a in quant["early"]]),
+         "Definition src_quantile_final : list (src_qmethod * src_qexpr) :=", sl(["(Src%s, %s)" % a for a in quant["final"]]),
+         "(* the guards of vquantile that do not mention q, i, j *)",
+         "Definition src_quantile_guards : list src_guard :=", "  " + coq_guards(quant["guards"]) + ".", "",
+         "(* tea-agg/src/lib.rs vpercentile_of: the counting closure (comparison of the element with the score -> counter), the kind table *)",
+         "Inductive src_counter := CntLess | CntEqual.",
+         "Inductive src_pkind := SrcRank | SrcWeak | SrcStrict.",
+         "Inductive src_pnum := PNLess | PNLessEqual | PNRankAvg.   (* numerator over total_count *)",
+         "Definition src_percentile_counting : list (src_cmp * src_counter) :=", sl(["(%s, %s)" % c for c in perc["counting"]]),
+         "Definition src_percentile_kinds : list (src_pkind * src_pnum * option (src_cmp * nat)) :=",
+         sl(["(%s, %s, %s)" % (k, n, "None" if t is None else "Some (%s, %d%%nat)" % t) for k, n, t in perc["kinds"]]), "",
+         "(* rolling family: the guards of every `fn ts_*` that mention min_periods (every occurrence lies in one of them) ... *)",
+         "Definition src_emit_guards : list (string * list src_guard) :=", sl(['("%s", %s)' % (n, coq_guards(emit[n])) for n in sorted(emit)]),
+         "(* ... and those that mention EPS *)",
+         "Definition src_eps_guards : list (string * list src_guard) :=", sl(['("%s", %s)' % (n, coq_guards(epsg[n])) for n in sorted(epsg)]),
+         "(* reg.rs: the aggregation applied to the residuals, with its literal min_periods *)",
+         "Definition src_resid_calls : list (string * (string * nat)) :=", sl(['("%s", ("%s", %d%%nat))' % (n, resid[n][0], resid[n][1]) for n in sorted(resid)]), "",
+         "(* tea-map: shift, vshift, vdiff, vpct_change *)",
+         "Inductive src_cnt := CntLen | CntNAbs | CntLenMinusNAbs.",
+         "Inductive src_clo := CloSubBA | CloSubAB | CloCast | CloPctPos | CloPctNeg.",
+         "Inductive src_pipe := PSelf | PRepeat (c : src_cnt) | PTake (p : src_pipe) (c : src_cnt) | PSkip (p : src_pipe) (c : src_cnt)",
+         "  | PChain (p q : src_pipe) | PZip (p q : src_pipe) | PMap (f : src_clo) (p : src_pipe).",
+         "Inductive src_sign := SgnCmp (c : src_cmp) | SgnLit (z : Z) | SgnRest.   (* `n if n <c> 0`, a literal, `_` *)",
+         "Inductive src_fill := FillValue | FillValueOrNone | FillNan.",
+         "(* name, fill, operator of the early guard `len <op> n_abs`, what the early guard returns, the arms of `match n` in order *)",
+         "Definition src_map_arms : list (string * (src_fill * src_cmp * src_pipe * list (src_sign * src_pipe))) :=",
+         sl(['("%s", (%s, %s, %s,\n      [%s]))' % (n, f, op, e, ";\n       ".join("(%s, %s)" % a for a in arms)) for n, f, op, e, arms in marms]),
+         "(* the guards of the percentage closures: TElem 0 = a (the lagged side), TElem 1 = b; value b.cast() / a - 1., else NaN *)",
+         "Definition src_pct_closures : list (string * src_clo * list src_guard) :=",
+         sl(['("%s", %s, %s)' % (n, k, coq_guards(gs)) for n, k, gs in pct]), ""]
+    return o
+
+
 def strip_comments(s):
     s = re.sub(r"//[^\n]*", "", s)
     return re.sub(r"/\*.*?\*/", "", s, flags=re.S)
@@ -181,7 +886,7 @@ def render_rolling(table, origin):
 
 def coq_z(v): return str(v) if v >= 0 else "(%d)" % v
 
-def render(consts, arms, guards, units, rules, dflt, roll=None):
+def render(consts, arms, guards, units, rules, dflt, roll=None, agg=None):
     def val(k):
         if re.fullmatch(r"[0-9_]+", k): return int(k.replace("_", ""))
         if k not in consts: raise SystemExit("gen_tables: unknown constant %s" % k)
@@ -190,7 +895,7 @@ def render(consts, arms, guards, units, rules, dflt, roll=None):
     out = ["(* GENERATED by tools/gen_tables.py from tea-time/src/{convert,timedelta,datetime}.rs and, for the rolling family,",
            "   tea-rolling/src/{features,cmp,norm,binary,reg}.rs and tevec/src/rolling.rs — do not edit.",
            "   Regenerated from the repo's working tree on every run of the C16 / C17 / C18 and C05 / C06 checks. *)",
-           "From Coq Require Import ZArith List String.", "From Tevec Require Import Model.Time.",
+           "From Coq Require Import Floats ZArith List String.", "From Tevec Require Import Model.Time.",
            "Import ListNotations.", "Open Scope Z_scope.", "Open Scope string_scope.", "",
            "Inductive src_op := OpDivEuclid | OpMul | OpDivTrunc | OpWrapMul.", "",
            "(* `pub const NAME: i64 = value;` of convert.rs, in source order *)",
@@ -210,6 +915,7 @@ def render(consts, arms, guards, units, rules, dflt, roll=None):
            "Definition src_time_rules : list string :=", "  [" + ";\n   ".join('"%s"' % r for r in rules) + "].",
            'Definition src_strftime_default : string := "%s".' % dflt, ""]
     if roll is not None: out += render_rolling(*roll)
+    if agg is not None: out += render_agg(*agg)
     return "\n".join(out)
 
 def main(argv):
@@ -218,7 +924,11 @@ def main(argv):
         consts, arms, guards, units, rules, dflt = parse(repo)
         if len(arms) == 0 or len(units) == 0: raise SystemExit("gen_tables: no arms / units recognised")
         roll = parse_rolling(repo)
-        text = render(consts, arms, guards, units, rules, dflt, roll)
+        try:
+            agg = (parse_eps(repo), parse_agg(repo), parse_quantile(repo), parse_percentile(repo), parse_rolling_guards(repo), parse_map(repo))
+        except Unrecognised as e:
+            print("gen_tables: aggregation / closure / map families, shape not recognised: %s" % (e,)); return 2
+        text = render(consts, arms, guards, units, rules, dflt, roll, agg)
     except Unrecognised as e:
         print("gen_tables: rolling family, shape not recognised: %s" % (e,)); return 2
     except (OSError, ValueError, KeyError) as e:
@@ -230,7 +940,9 @@ def main(argv):
     if old != text:
         os.makedirs(os.path.dirname(path), exist_ok=True)
         open(path, "w").write(text)
-        print("gen_tables: coq/Gen/SrcTables.v regenerated (%d consts, %d arms, %d units, %d formats, %d rolling min_periods shapes)" % (len(consts), len(arms), len(units), len(rules), len(roll[0])))
+        print("gen_tables: coq/Gen/SrcTables.v regenerated (%d consts, %d arms, %d units, %d formats, %d rolling min_periods shapes; "
+              "%d aggregation guard lists, %d rolling emit guards, %d map functions)"
+              % (len(consts), len(arms), len(units), len(rules), len(roll[0]), len(agg[1][0]), len(agg[4][0]), len(agg[5][0])))
     return 0
 
 if __name__ == "__main__":
